@@ -37,6 +37,7 @@ fn base(prop: &str, seed: u64) -> (Rng, Scenario) {
         ops: vec![],
         twin: Twin::None,
         sim_seconds: 0.0,
+        repeat: 0,
     };
     (rng, sc)
 }
@@ -89,10 +90,10 @@ fn died(out: &mut Outcome, prop: &str, t: &Trace, who: &str) -> bool {
 
 fn gen_c10(seed: u64, tier: Tier) -> Scenario {
     let (mut rng, mut sc) = base("C10", seed);
-    let dom = Dom { custom_kernels: true, ..Dom::default() };
+    let dom = Dom { custom_kernels: true, wild: true, ..Dom::default() };
     sc.config = gen_config(&mut rng, &dom);
     sc.signal = gen_signal(&mut rng);
-    if rng.chance(2.5e-4) {
+    if rng.chance(if tier == Tier::Quick { 6.0e-4 } else { 2.5e-4 }) {
         // frame counts above 2^24: reset right after construction or after a call or two
         sc.config = gen_huge_config(&mut rng);
         sc.signal = Signal::Const { v: 0.25 };
@@ -111,6 +112,11 @@ fn gen_c10(seed: u64, tier: Tier) -> Scenario {
         sc.ops = ops;
         sc.twin = Twin::Reset { prefix };
         return sc;
+    }
+    if sc.config.kind.is_async() && rng.chance(0.05) {
+        // the directed extreme configurations (rounding coincidences in the size formulas), history by this generator
+        let (cfg, _) = gen_extreme_directed(&mut rng, sc.config.kind);
+        sc.config = cfg;
     }
     let n = ops_budget(&sc.config, tier_budget(tier), 6, q(tier, 70, 100), &mut rng);
     let npre = rng.usize_in(0, (n * 2 / 3).max(1));
@@ -203,8 +209,8 @@ pub fn gen_bad_call(rng: &mut Rng) -> BadCall {
         0 => BadCall::InChannels { delta, zero },
         1 => BadCall::OutChannels { delta, zero },
         2 => BadCall::MaskLen { delta, zero },
-        3 => BadCall::InShort { ch: rng.below(8) as u8, missing: *rng.pick(&[1u32, 1, 2, 7, 100, u32::MAX]) },
-        _ => BadCall::OutShort { ch: rng.below(8) as u8, missing: *rng.pick(&[1u32, 1, 2, 7, 100, u32::MAX]) },
+        3 => BadCall::InShort { ch: rng.below(256) as u8, missing: *rng.pick(&[1u32, 1, 2, 7, 100, u32::MAX]) },
+        _ => BadCall::OutShort { ch: rng.below(256) as u8, missing: *rng.pick(&[1u32, 1, 2, 7, 100, u32::MAX]) },
     }
 }
 
@@ -254,7 +260,7 @@ pub fn gen_chunk_val(rng: &mut Rng, max: usize) -> ChunkVal {
 
 fn gen_c13(seed: u64, tier: Tier) -> Scenario {
     let (mut rng, mut sc) = base("C13", seed);
-    let dom = Dom { edges: false, custom_kernels: true, ..Dom::default() };
+    let dom = Dom { edges: false, custom_kernels: true, wild: true, ..Dom::default() };
     sc.config = gen_config(&mut rng, &dom);
     sc.signal = gen_signal(&mut rng);
     let n = ops_budget(&sc.config, tier_budget(tier), 6, q(tier, 40, 80), &mut rng);
@@ -264,9 +270,11 @@ fn gen_c13(seed: u64, tier: Tier) -> Scenario {
     // one malformation); a failed call changes nothing, so a burst can hold many shapes
     let points = rng.usize_in(1, 4);
     let mut idx = Vec::new();
+    let long_burst = rng.chance(0.02);
     for _ in 0..points {
         let at = rng.usize_in(0, ops.len());
-        let burst = rng.usize_in(1, 6);
+        // rarely: hundreds of rejected calls in a row (a caller retrying in a loop)
+        let burst = if long_burst { rng.usize_in(101, 400) } else { rng.usize_in(1, 6) };
         for _ in 0..burst {
             ops.insert(at, gen_bad_op(&mut rng, &sc.config));
         }
@@ -403,11 +411,19 @@ fn eval_c13(sc: &Scenario) -> Outcome {
 
 fn gen_c12(seed: u64, tier: Tier) -> Scenario {
     let (mut rng, mut sc) = base("C12", seed);
-    let dom = Dom { edges: false, custom_kernels: true, zero_channels: true, ..Dom::default() };
+    let dom = Dom { edges: false, custom_kernels: true, zero_channels: true, wild: true, ..Dom::default() };
     sc.config = gen_config(&mut rng, &dom);
     // make "interesting" original/max pairs frequent
     if rng.chance(0.3) {
         sc.config.max_rel = *rng.pick(&[1.0, 1.1, 1.5, 2.0, 3.0, 10.0, 1.0000000000000002, 1.41498]);
+    } else if rng.chance(0.15) {
+        // integer ranges (1/(1/k) does not always round back to k), also with an integer original ratio
+        sc.config.max_rel = rng.usize_in(2, 200) as f64;
+        if rng.chance(0.5) {
+            sc.config.ratio = *rng.pick(&[1.0, 2.0, 0.5, 4.0]);
+        }
+        sc.config.chunk = sc.config.chunk.min(64);
+        sanitize(&mut sc.config);
     }
     sc.signal = gen_signal(&mut rng);
     let n = ops_budget(&sc.config, tier_budget(tier), 5, q(tier, 30, 60), &mut rng);
@@ -445,7 +461,8 @@ fn gen_c12(seed: u64, tier: Tier) -> Scenario {
                 burst.push(Op::BadRatio { val: c, ramp: rng.chance(0.5), relative_api: rng.chance(0.5) });
             }
         }
-        for cv in [ChunkVal::Zero, ChunkVal::One, ChunkVal::Max, ChunkVal::MaxPlus1, ChunkVal::UsizeMax, gen_chunk_val(&mut rng, sc.config.chunk)] {
+        let p2 = ChunkVal::Pow2Plus { pow: *rng.pick(&[32u8, 32, 31, 33, 16, 63, 48]), delta: *rng.pick(&[1usize, 0, sc.config.chunk, sc.config.chunk / 2 + 1, 2]) };
+        for cv in [ChunkVal::Zero, ChunkVal::One, ChunkVal::Max, ChunkVal::MaxPlus1, ChunkVal::UsizeMax, gen_chunk_val(&mut rng, sc.config.chunk), p2] {
             if full || rng.chance(0.3) {
                 burst.push(Op::BadChunk { val: cv });
             }
@@ -605,10 +622,10 @@ fn eval_c12(sc: &Scenario) -> Outcome {
 
 fn gen_c16(seed: u64, tier: Tier) -> Scenario {
     let (mut rng, mut sc) = base("C16", seed);
-    let dom = Dom { edges: false, custom_kernels: true, ..Dom::default() };
+    let dom = Dom { edges: false, custom_kernels: true, wild: true, ..Dom::default() };
     sc.config = gen_config(&mut rng, &dom);
     sc.signal = gen_signal(&mut rng);
-    if rng.chance(2.5e-4) {
+    if rng.chance(if tier == Tier::Quick { 6.0e-4 } else { 2.5e-4 }) {
         // frame counts above 2^24: the allocating wrappers size their buffers from output_frames_next()
         sc.config = gen_huge_config(&mut rng);
         sc.signal = Signal::Const { v: 0.25 };
@@ -661,6 +678,11 @@ fn gen_c16(seed: u64, tier: Tier) -> Scenario {
 
 fn eval_c16(sc: &Scenario) -> Outcome {
     let mut out = Outcome::default();
+    // the provided trait methods and the VecResampler wrapper on a user-written implementor
+    crate::usertype::check_user_type_wrappers(&mut out, sc.seed);
+    if !out.viol.is_empty() {
+        return out;
+    }
     let cfg = &sc.config;
     let (idx, paths) = match &sc.twin {
         Twin::Paths { idx, paths } => (idx.clone(), paths.clone()),
@@ -777,9 +799,11 @@ fn flush_liveness(out: &mut Outcome, sc: &Scenario) {
 
 fn gen_c11(seed: u64, tier: Tier) -> Scenario {
     let (mut rng, mut sc) = base("C11", seed);
-    let dom = Dom { edges: false, masks: false, ..Dom::default() };
+    let dom = Dom { edges: false, masks: false, wild: true, ..Dom::default() };
     sc.config = gen_config(&mut rng, &dom);
-    sc.config.channels = rng.usize_in(1, 8);
+    if sc.config.channels <= 8 {
+        sc.config.channels = rng.usize_in(1, 8);
+    }
     if rng.chance(0.75) {
         let mut m: Vec<bool> = (0..sc.config.channels).map(|_| rng.chance(0.6)).collect();
         if rng.chance(0.1) {
@@ -796,6 +820,10 @@ fn gen_c11(seed: u64, tier: Tier) -> Scenario {
         1 => Signal::Impulses { seed: rng.next(), period: rng.usize_in(3, 100) as u32, floor: 0.01 },
         _ => Signal::Multisine { seed: rng.next() },
     };
+    if sc.config.channels >= 2 && rng.chance(0.1) {
+        // one channel carries +-MAX, infinities and NaNs: the others must not notice
+        sc.signal = Signal::Extreme { seed: rng.next(), last_ch: sc.config.channels - 1 };
+    }
     let per = tier_budget(tier) / (1.0 + sc.config.channels as f64 * 0.5);
     let n = ops_budget(&sc.config, per, 5, q(tier, 40, 80), &mut rng);
     let m = OpMix::swarm(&mut rng, n);
@@ -883,7 +911,7 @@ fn eval_c11(sc: &Scenario) -> Outcome {
 
 fn gen_c17(seed: u64, tier: Tier) -> Scenario {
     let (mut rng, mut sc) = base("C17", seed);
-    let dom = Dom { edges: false, f32: Some(false), ..Dom::default() };
+    let dom = Dom { edges: false, f32: Some(false), wild: true, ..Dom::default() };
     sc.config = gen_config(&mut rng, &dom);
     sc.signal = match rng.below(3) {
         0 => Signal::Noise { seed: rng.next() },
@@ -994,7 +1022,7 @@ fn lcm(a: usize, b: usize) -> usize {
 
 fn gen_c05(seed: u64, tier: Tier) -> Scenario {
     let (mut rng, mut sc) = base("C05", seed);
-    let dom = Dom { edges: false, masks: false, max_channels: 2, ..Dom::default() };
+    let dom = Dom { edges: false, masks: false, max_channels: 2, wild: true, ..Dom::default() };
     let mut a = gen_config(&mut rng, &dom);
     let nearest = (a.kind.is_sinc() && a.interp % 4 == 0) || (a.kind.is_fast() && a.degree % 5 == 0);
     if nearest {
@@ -1220,13 +1248,16 @@ fn eval_c05(sc: &Scenario) -> Outcome {
 
 fn gen_c06(seed: u64, tier: Tier) -> Scenario {
     let (mut rng, mut sc) = base("C06", seed);
+    let is_f32 = rng.chance(0.12);
     let dom = Dom {
         kinds: vec![Kind::SincIn, Kind::SincOut, Kind::FastIn, Kind::FastOut],
         edges: false,
         masks: false,
         max_channels: 2,
         kernel: Kernel::Probe,
-        f32: Some(rng.chance(0.12)),
+        f32: Some(is_f32),
+        // f32 position mode only resolves short streams: no wild sizes there
+        wild: !is_f32,
         ..Dom::default()
     };
     sc.config = gen_config(&mut rng, &dom);
@@ -1412,7 +1443,7 @@ fn eval_c06(sc: &Scenario) -> Outcome {
 
 fn gen_c15(seed: u64, tier: Tier) -> Scenario {
     let (mut rng, mut sc) = base("C15", seed);
-    let dom = Dom { kinds: vec![Kind::SincIn, Kind::SincOut], edges: false, max_channels: 2, max_chunk: 512, ..Dom::default() };
+    let dom = Dom { kinds: vec![Kind::SincIn, Kind::SincOut], edges: false, max_channels: 2, max_chunk: 512, wild: true, ..Dom::default() };
     sc.config = gen_config(&mut rng, &dom);
     // all multiples of 8 up to 512, odd and even len/8
     if rng.chance(0.7) {
